@@ -53,6 +53,24 @@ func feed(sc *SorterScenario) (*sorter.Sorter, error) {
 	if err != nil {
 		return nil, err
 	}
+	if (len(sc.In)+sc.Pad+len(sc.Rem))%2 == 1 {
+		// a sorter is REUSED (re-ingest, the doctor): before this scenario it sorts another table - without a
+		// key and of another width -, is closed and reset; nothing of that may survive into the scenario
+		s.SetColumns([]string{"p", "q"})
+		s.PK = nil
+		for _, r := range [][]string{{"2", "x"}, {"1", "y"}, {"1", "x"}, {"2", "x"}} {
+			if err := s.AddRow(r); err != nil {
+				return nil, err
+			}
+		}
+		ec := make(chan error, 4)
+		for range s.SortedRows(context.Background(), nil, ec) {
+		}
+		if err := s.Close(); err != nil {
+			return nil, err
+		}
+		s.Reset()
+	}
 	// the two ways the repository drives the sorter: ingest sets the columns (and with
 	// them the profiler) and never removes columns; the merge collector sets only the
 	// key indices and may remove columns
